@@ -2,6 +2,8 @@ package cronmc
 
 import (
 	"fmt"
+	"os"
+	"sort"
 	"time"
 
 	"verif/internal/pure"
@@ -72,10 +74,15 @@ func init() {
 func runC01(c *pure.Ctx, p Pop) {
 	depth := 5
 	if c.Spec.Thorough {
-		depth = 6
+		d := 7
 		if len(p.JCs) <= 2 {
-			depth = 7
+			d = 8
 		}
+		if v := os.Getenv("VERIF_C01_DEPTH"); v != "" {
+			fmt.Sscan(v, &d)
+		}
+		runC01States(c, p, d)
+		return
 	}
 	states := map[string]bool{}
 	seq := make([]int, depth)
@@ -129,5 +136,170 @@ func runC01(c *pure.Ctx, p Pop) {
 		}
 	}
 	rec(0)
+	c.SetStates(len(states))
+}
+
+
+// thoroughMenu extends the tick menu for the state-space search.
+var thoroughMenu = []time.Duration{250 * time.Millisecond, time.Second, 1500 * time.Millisecond, 5 * time.Second, 61 * time.Second, 400 * time.Second, 3601 * time.Second}
+
+// c01State is what the search records per distinct state: its shortest tick
+// sequence and, once expanded, the observation and successor of every tick.
+type c01State struct {
+	path []int
+	succ []string // per tick: emissions + "=>" + successor key
+}
+
+type c01Merge struct {
+	path []int
+	key  string
+}
+
+// runC01States is the thorough tier: breadth-first search over the states of
+// scheduler + reference, every tick of the menu from every state, to the depth
+// bound. A state is the instant, the heap content as a set of (name, priority)
+// and the reference cursors: Work() reads nothing else (there are no JobConfig
+// updates in these worlds, so the update buffer stays empty). The position of
+// an entry in the heap array only decides the order in which entries of equal
+// priority are popped, all of which are popped in the same tick and re-pushed
+// with a next time computed from their own popped time; so two tick sequences
+// reaching the same key have the same futures up to the order of same-instant
+// requests (observations are compared sorted by time, then name). The array
+// layout itself is still checked (heap order, index, name map) on the state
+// every executed transition produces, before states are merged. That
+// argument is checked while searching: every 8th time a sequence reaches a
+// state already known through another sequence, all ticks are run from the new
+// sequence and compared with what the representative recorded when expanded.
+func runC01States(c *pure.Ctx, p Pop, depth int) {
+	menu := thoroughMenu
+	key := func(h *Harness, r *Ref) string {
+		var cur []string
+		for _, j := range p.JCs {
+			cur = append(cur, fmt.Sprint(r.JCs[j.Name].cursor.UnixNano()))
+		}
+		var items []string
+		for _, it := range h.Worker.VerifSchedule().VerifDump().Queue {
+			items = append(items, fmt.Sprintf("%s@%d", it.Name, it.Priority))
+		}
+		sort.Strings(items)
+		return fmt.Sprintf("%d|%v|%v", h.Now().UnixNano(), items, cur)
+	}
+	// replay builds the state reached by path (all of it checked earlier).
+	replay := func(path []int) (*Harness, *Ref) {
+		h := NewHarness(p, true)
+		r := NewRef(p, h.T0, h.T0)
+		for _, i := range path {
+			h.Tick(menu[i])
+			r.Expect(h.Now())
+		}
+		return h, r
+	}
+	names := func(path []int) []string {
+		out := make([]string, len(path))
+		for i, t := range path {
+			out[i] = menu[t].String()
+		}
+		return out
+	}
+	h0 := NewHarness(p, true)
+	if h0.InitErr != nil {
+		c.Violate("init-failed", fmt.Sprintf("population %s: Init failed: %v", p.Name, h0.InitErr))
+		return
+	}
+	r0 := NewRef(p, h0.T0, h0.T0)
+	if msg := h0.CheckHeap(r0, 500*24*time.Hour); msg != "" {
+		c.Violate("heap-after-init", fmt.Sprintf("population %s after Init: %s", p.Name, msg))
+	}
+	states := map[string]*c01State{key(h0, r0): {}}
+	frontier := []string{key(h0, r0)}
+	merges, validated := 0, 0
+	var pending []c01Merge
+	// step runs tick t after path and returns (observation, successor key, ok).
+	step := func(path []int, t int, check bool) (string, string, bool) {
+		h, r := replay(path)
+		got := h.Tick(menu[t])
+		c.Eval()
+		c.Count("ticks")
+		trace := append(names(path), menu[t].String())
+		if check {
+			if msg := r.CheckTick(h.Now(), got); msg != "" {
+				c.Violate("stream", fmt.Sprintf("population %s ticks %v: %s", p.Name, trace, msg))
+				return "", "", false
+			}
+			if msg := h.CheckHeap(r, 500*24*time.Hour); msg != "" {
+				c.Violate("heap", fmt.Sprintf("population %s ticks %v: %s", p.Name, trace, msg))
+				return "", "", false
+			}
+		} else {
+			r.Expect(h.Now())
+		}
+		if len(got) > 0 {
+			c.Nontrivial(fmt.Sprintf("%v", trace))
+		}
+		sort.SliceStable(got, func(i, j int) bool {
+			if !got[i].T.Equal(got[j].T) {
+				return got[i].T.Before(got[j].T)
+			}
+			return got[i].JC < got[j].JC
+		})
+		return fmt.Sprint(got), key(h, r), true
+	}
+	for d := 0; d < depth && len(frontier) > 0; d++ {
+		var next []string
+		for _, k := range frontier {
+			if c.Expired() {
+				c.SetStates(len(states))
+				return
+			}
+			st := states[k]
+			st.succ = make([]string, len(menu))
+			for t := range menu {
+				obs, nk, ok := step(st.path, t, true)
+				if !ok {
+					c.SetStates(len(states))
+					return
+				}
+				st.succ[t] = obs + "=>" + nk
+				if _, seen := states[nk]; seen {
+					merges++
+					if merges%8 == 0 {
+						pending = append(pending, c01Merge{append(append([]int(nil), st.path...), t), nk})
+					}
+					continue
+				}
+				states[nk] = &c01State{path: append(append([]int(nil), st.path...), t)}
+				next = append(next, nk)
+			}
+		}
+		frontier = next
+		c.AddCount(fmt.Sprintf("states-at-depth-%02d", d+1), len(next))
+		// A merged sequence must have the futures recorded for the representative.
+		var later []c01Merge
+		for _, m := range pending {
+			other := states[m.key]
+			if other.succ == nil {
+				later = append(later, m) // representative is expanded at the next level
+				continue
+			}
+			if c.Expired() {
+				c.SetStates(len(states))
+				return
+			}
+			for t2 := range menu {
+				obs2, nk2, _ := step(m.path, t2, false)
+				if obs2+"=>"+nk2 != other.succ[t2] {
+					c.Violate("state-merge-unsound", fmt.Sprintf("population %s: sequences %v and %v reach the same state key but tick %s then gives %q vs %q",
+						p.Name, names(m.path), names(other.path), menu[t2], obs2+"=>"+nk2, other.succ[t2]))
+					c.SetStates(len(states))
+					return
+				}
+			}
+			validated++
+		}
+		pending = later
+	}
+	c.AddCount("merges", merges)
+	c.AddCount("merges-validated", validated)
+	c.Sample(map[string]interface{}{"population": p.Name, "depth": depth, "menu": fmt.Sprint(menu), "states": len(states)})
 	c.SetStates(len(states))
 }
